@@ -98,6 +98,32 @@ NextBuild ==
   \/ BAddComp \/ BAddComp \/ BAddComp \/ BAddMux
 SpecBuild == (Init /\ step = 0 /\ act = [op |-> "init", a |-> <<>>]) /\ [][NextBuild]_<<vars, step, act>>
 
+\* histories that concentrate on the PMux: build one quickly, then edit its inputs (rename, change of
+\* class / rail, deletion with and without children, rejected variants of all of these) and try to
+\* add muxes over illegal parent lists
+MuxInputs == UNION {SeqRange(sys.par[m]) : m \in Muxes(sys)}
+MuxRefs   == (MuxInputs \cup {sys.comps[n].rail : n \in MuxInputs}) \ {""}
+SChangeMuxInput(acc) ==
+  \E target \in Pick(2, MuxRefs), name \in Pick(2, NameU) \cup Pick(1, MuxInputs), cls \in Pick(4, ClassU),
+     pay \in Pick(1, PayU), rail \in Pick(2, RailU), group \in Pick(1, GroupU) :
+     X(acc, "change_comp", [target |-> target, comp |-> C(name, cls, pay), rail |-> rail, group |-> group])
+SDelMuxInput(acc) ==
+  \E target \in Pick(2, MuxRefs), delchilds \in BOOLEAN :
+     X(acc, "del_comp", [target |-> target, delchilds |-> delchilds])
+\* a parent list in which some entry is a load, a duplicate or unknown
+SAddMuxOver(acc) ==
+  \E k \in 2..MaxRefs, name \in Pick(2, NameU), rail \in Pick(1, RailU) :
+     \E ins \in Pick(3, {q \in SeqsUpTo(Pick(4, LiveRefs) \cup Pick(1, RefU), k) : Len(q) = k}) :
+        X(acc, "add_comp", [refs |-> ins, aslist |-> TRUE, comp |-> C(name, "PMux", 0), rail |-> rail, group |-> ""])
+NextMux ==
+  IF Muxes(sys) = {} /\ step < 12
+  THEN BAddSource \/ BAddComp \/ BAddComp \/ BAddMux \/ BAddMux \/ SAddMuxOver("rej") \/ SAddMuxOver("ok")
+  ELSE \/ SChangeMuxInput("ok") \/ SChangeMuxInput("rej") \/ SChangeMuxInput("rej")
+       \/ SDelMuxInput("ok") \/ SDelMuxInput("rej")
+       \/ SAddMuxOver("rej") \/ SAddComp("ok") \/ SAddSource("ok")
+       \/ SChangeSame("ok") \/ SChangeSame("rej") \/ SDelComp("ok") \/ SSetCompPhases("ok")
+SpecMux == (Init /\ step = 0 /\ act = [op |-> "init", a |-> <<>>]) /\ [][NextMux]_<<vars, step, act>>
+
 SpecSim == (Init /\ step = 0 /\ act = [op |-> "init", a |-> <<>>]) /\ [][NextSim]_<<vars, step, act>>
 
 CfgConfSim == {[t |-> "list", v |-> <<"p">>], [t |-> "list", v |-> <<"q", "s">>],
